@@ -9,7 +9,7 @@
    reproduces byte for byte. *)
 From Coq Require Import String NArith List Bool.
 From RC Require Import lib.Result model.Layout model.TrigTable model.RichCodec model.Str model.StrEditor model.Alloc
-  proofs.C04_proofs proofs.C08_proofs proofs.C09_proofs gen.GenTrig spec.SpecTrig gen.GenFlags.
+  proofs.C04_proofs proofs.C08_proofs proofs.C09_proofs proofs.Save_strings proofs.Save_refs gen.GenTrig spec.SpecTrig gen.GenFlags gen.GenConsts.
 Import ListNotations.
 Local Open Scope N_scope.
 
@@ -46,3 +46,22 @@ Proof.
   intros existing reqs outs H. destruct (add_locations_sound _ _ _ H) as (_ & Hn & Hf & _). split; assumption.
 Qed.
 Print Assumptions C04_new_objects_get_their_own_free_slot_partial.
+
+(* every reference resolves to the authored object - strings: the number the save writes for a rich string reads back,
+   through the emitted table's own lookup, as exactly that string (0 for "no string") *)
+Theorem C04_a_written_string_number_reads_back_as_the_authored_text :
+  forall L s i, (N.of_nat (length (sl_by_id L)) <= 1000000)%N -> id_by_str L s = Ok i ->
+    str_by_id L i = s /\ (i = 0 \/ (1 <= i /\ i <= N.of_nat (length (sl_by_id L))))%N.
+Proof. exact id_by_str_resolves. Qed.
+Print Assumptions C04_a_written_string_number_reads_back_as_the_authored_text.
+
+(* ... locations: the slot the emitted location table holds for a location reads back with that location's own name *)
+Theorem C04_an_emitted_location_slot_carries_the_location_s_name :
+  forall L ls v k l slot,
+    (N.of_nat (length (sl_by_id L)) <= 1000000)%N -> mrgn_encode L ls = Ok v ->
+    (k < N.to_nat MRGN_TRANSCODER_MAX_LOCATIONS)%nat ->
+    assocN_last (N.of_nat k + 1)%N (flat_map (fun l => match l_idx l with Some i => [(i, l)] | None => [] end) ls) = Some l ->
+    nth_error (vlist "_locations" v) k = Some slot ->
+    str_by_id L (vint "_string_id" slot) = l_name l.
+Proof. exact mrgn_slot_name_resolves. Qed.
+Print Assumptions C04_an_emitted_location_slot_carries_the_location_s_name.
